@@ -63,6 +63,7 @@ type TermTable struct {
 	next  int
 	Vars  []*Term
 	varBy map[string]*Term
+	fpMemo map[*Term]bool
 }
 
 func NewTermTable() *TermTable {
@@ -683,6 +684,13 @@ func (tt *TermTable) IntToFP(a *Term, signed bool, s Sort) *Term {
 		}
 		return tt.FPConst(f, s)
 	}
+	// conversion of an extended narrower integer: convert the narrow operand (same value)
+	if signed && a.Op == "sign_extend" {
+		return tt.IntToFP(a.Args[0], true, s)
+	}
+	if a.Op == "zero_extend" {
+		return tt.IntToFP(a.Args[0], false, s)
+	}
 	op := "to_fp_s"
 	if !signed {
 		op = "to_fp_u"
@@ -991,3 +999,24 @@ func sortTermsByName(ts []*Term) {
 }
 
 var _ = bits.Len
+
+// HasFP reports whether t contains floating-point operations (memoised per table).
+func (tt *TermTable) HasFP(t *Term) bool {
+	if tt.fpMemo == nil {
+		tt.fpMemo = map[*Term]bool{}
+	}
+	if v, ok := tt.fpMemo[t]; ok {
+		return v
+	}
+	r := isFP(t.S)
+	if !r {
+		for _, a := range t.Args {
+			if tt.HasFP(a) {
+				r = true
+				break
+			}
+		}
+	}
+	tt.fpMemo[t] = r
+	return r
+}
